@@ -244,9 +244,9 @@ private:
       if (k == 1) {
         decrement();
         --n;
-      } else if (k < n) {
-        seek_backward();
-        n -= k;
+      } else if (k <= n) {
+        std::advance(this->base_reference(), -(k - 1));
+        n -= k - 1;
       } else {
         std::advance(this->base_reference(), -n);
         n = 0;
